@@ -441,6 +441,23 @@ def run(ctx: Ctx) -> int:
             )
     ctx.floor("C04.f-namespace-updates", n_upd, 1)
 
+    # ---- C04.h appends are looked for at every nesting level ------------------------------------------------
+    # apply_appends resolves the 'key+' entries of a source against the configuration built so far; it has to see
+    # nested ones (`g.lst+`): only the flattened views of a Namespace (keys() / items() / get_sorted_keys()) do
+    aap = ctx.func("_typehints:ActionTypeHint.apply_appends")
+    cfgp = aap.args.args[-1].arg
+    shallow_views = [n_ for n_ in ast.walk(aap) if (isinstance(n_, ast.Call) and isinstance(n_.func, ast.Name) and n_.func.id == "vars" and n_.args and root_name(n_.args[0]) == cfgp) or (isinstance(n_, ast.Attribute) and n_.attr == "__dict__" and root_name(n_) == cfgp)]
+    flat_iters = [n_ for n_ in ast.walk(aap) if isinstance(n_, ast.comprehension) and isinstance(n_.iter, ast.Call) and isinstance(n_.iter.func, ast.Attribute) and n_.iter.func.attr in ("keys", "items", "get_sorted_keys") and root_name(n_.iter.func) == cfgp]
+    flat_iters += [n_ for n_ in ast.walk(aap) if isinstance(n_, ast.For) and isinstance(n_.iter, ast.Call) and isinstance(n_.iter.func, ast.Attribute) and n_.iter.func.attr in ("keys", "items", "get_sorted_keys") and root_name(n_.iter.func) == cfgp]
+    ok = bool(flat_iters) and not shallow_views
+    ctx.oblige(
+        "C04.h",
+        ok,
+        shallow_views[0] if shallow_views else aap,
+        "apply_appends looks for 'key+' entries through the flattened key view (every nesting level)" if ok else f"apply_appends looks at `{ast.unparse(shallow_views[0]) if shallow_views else '?'}` - the top-level names only: a source whose appends are all nested (`g: {{lst+: [1]}}`) is not resolved at its position; the stale `g.lst+` entry is rejected later or applied after sources that should override it",
+        fn=aap,
+    )
+
     # ---- C04.g an append ('key+') is tried against list-typed Union members first, and only those ----------
     from .shared_rules import origin_table
 
